@@ -153,12 +153,17 @@ func (p *parser) parseMessageText() (dataItem ast.ItemNode, ok bool) {
 
 	switch formatCode {
 	case formatCodeList:
-		values := make([]interface{}, length)
+		// The element count is only a claim of the input until the elements have been
+		// decoded: collect them as they come instead of allocating room for all of them
+		// up front (nested lists that each declare "everything that is left" would
+		// otherwise cost memory quadratic in the input length).
+		values := []interface{}{}
 		for i := 0; i < length; i++ {
-			values[i], ok = p.parseMessageText()
+			value, ok := p.parseMessageText()
 			if !ok {
 				return ast.NewEmptyItemNode(), false
 			}
+			values = append(values, value)
 		}
 		return ast.NewListNode(values...), true
 
